@@ -19,6 +19,8 @@ from .. import ref, gen, bridge, core
 from ..mon.hooks import Hooks
 
 PROP = "C16"
+LEVEL_TEXT = 'parsimony_score is hooked (history journal per tree object) and every result is compared with an independent Sankoff DP (cross-checked by brute force on small cases) on the same tree/matrix, for DNA/RNA/protein/standard matrices over the full symbol set, weights, both gap treatments, after 0-3 earlier scoring calls on the same object, on clones of scored trees, and after re-rooting/child shuffling.'
+LEVEL_NOTE = 'Trusted: the Sankoff oracle and the symbol tables written in the module; bifurcating trees only.'
 LEVEL = "exploration"
 TECHNIQUE = "runtime monitoring: hook on parsimony_score with history journal per tree object; independent Sankoff/brute-force oracle"
 RULE = ("(bifurcating tree shape x rooting) x (data type, matrix over the full symbol set incl. ambiguity codes, gaps, missing) x weights x "
